@@ -34,3 +34,9 @@ def decide(kind: str, options: tuple[Any, ...]) -> Any:
 
 def snapshot() -> dict[str, list[Any]]:
     return {k: list(v) for k, v in LAST.items()}
+
+
+def record(kind: str, value: Any) -> Any:
+    """A choice fixed by the scenario itself (not rotating): recorded like a decision so that witnesses show it."""
+    LAST.setdefault(kind, []).append(value)
+    return value
